@@ -276,6 +276,29 @@ theorem scanNth_enough (cells : Nat → Val) (ign : Bool) (n : Nat) (rows : List
   rw [List.getElem?_eq_getElem hlt]
   simp
 
+theorem scanNthFixed_spec (cells : Nat → Val) (ign : Bool) (n : Nat) : ∀ (rows : List Nat) (count : Nat),
+    count < n →
+    scanNthFixed cells ign n rows count = ((keptCells cells ign rows)[n - 1 - count]?).getD .null := by
+  intro rows
+  induction rows with
+  | nil => intro count _; simp [scanNthFixed, keptCells]
+  | cons r rest ih =>
+    intro count hc
+    rw [keptCells_cons]
+    by_cases hk : (ign && isNullV (cells r)) = true
+    · have hkeep : keepV ign (cells r) = false := by simp [keepV, hk]
+      simp only [scanNthFixed, hk, if_true, hkeep, Bool.false_eq_true, if_false]
+      exact ih count hc
+    · have hkeep : keepV ign (cells r) = true := by simp [keepV, hk]
+      simp only [scanNthFixed, hk, Bool.false_eq_true, if_false, hkeep, if_true]
+      by_cases hn : count + 1 = n
+      · have : n - 1 - count = 0 := by omega
+        simp [hn, this]
+      · simp only [hn, if_false]
+        rw [ih (count + 1) (by omega)]
+        have : n - 1 - count = (n - 1 - (count + 1)) + 1 := by omega
+        rw [this, List.getElem?_cons_succ]
+
 /-! ### LAG -/
 
 theorem lagPick_eq (cells : Nat → Val) (ign : Bool) (dflt : Val) (offset : Int) (pre : List Nat) (x : Nat) (post : List Nat) :
